@@ -400,6 +400,10 @@ fn gen_scan(rng: &mut Rng, long: bool, settled: Option<u64>) -> String {
         1 => 125,
         _ => rng.below(126) as u8,
     };
+    // settled cases: every second one has, from the start or arriving by script, stations whose answer is not a
+    // valid one (`others`), with nothing lost: the sweep must go on behind them (ground truth, seeded R5-C18-2)
+    let others = matches!(settled, Some(h) if h >= 6);
+    let settled = settled.map(|h| h % 6);
     let hp = match settled {
         Some(h) => h,
         None => rng.below(6),
@@ -433,7 +437,7 @@ fn gen_scan(rng: &mut Rng, long: bool, settled: Option<u64>) -> String {
     members.dedup();
     let mut pop0 = vec![];
     for &a in &members {
-        let bytes = if dirt == 2 && rng.chance(1, 12) { other_reply(rng, scanner, ts, a) } else { valid_reply(rng, scanner, ts, a) };
+        let bytes = if (dirt == 2 && rng.chance(1, 12)) || (others && rng.chance(1, 5)) { other_reply(rng, scanner, ts, a) } else { valid_reply(rng, scanner, ts, a) };
         pop0.push(format!("{}={}", a, hex(&bytes)));
     }
     // disturbances: settle early in 2 of 3 long cases so that two stable sweeps follow
@@ -451,7 +455,7 @@ fn gen_scan(rng: &mut Rng, long: bool, settled: Option<u64>) -> String {
             let a = pick_addr(rng, ts);
             match rng.below(4) {
                 0 | 1 => {
-                    let bytes = if dirt == 2 && rng.chance(1, 8) { other_reply(rng, scanner, ts, a) } else { valid_reply(rng, scanner, ts, a) };
+                    let bytes = if (dirt == 2 && rng.chance(1, 8)) || (others && rng.chance(1, 4)) { other_reply(rng, scanner, ts, a) } else { valid_reply(rng, scanner, ts, a) };
                     script.push((k, format!("{}+{}={}", k, a, hex(&bytes))));
                 }
                 _ => {
@@ -526,7 +530,7 @@ pub fn gen(seed: u64, thorough: bool, out: &mut dyn FnMut(String)) {
         out(gen_scan(&mut rng, false, None));
     }
     for i in 0..n_settled {
-        out(gen_scan(&mut rng, true, Some(i % 6)));
+        out(gen_scan(&mut rng, true, Some(i % 12)));
     }
     for _ in 0..n_long {
         out(gen_scan(&mut rng, true, None));
